@@ -84,6 +84,14 @@ class ResponseStrategyResolver:
 
         # Single content type - get the response schema
         response_schema = self._get_response_schema(primary_response)
+        # A media type declared without a schema (`image/png: {}`) is kept as an empty placeholder schema: no schema
+        if (
+            response_schema is not None
+            and getattr(response_schema, "_from_unresolved_ref", False)
+            and not response_schema.name
+            and not response_schema.type
+        ):
+            response_schema = None
 
         # If no schema provided, try to infer type from content-type
         if not response_schema:
